@@ -5,6 +5,7 @@ CHECK = {
     "level_text": "Held on the executions observed: tens of thousands (quick) to millions (thorough) of generated documents x 4 read segmentations, large documents up to 256 KiB with and without a marker-free region over 64 KiB, and every string of length <= 4 (quick) / 5 (thorough) over {\" \\ / * ' newline a} in 4 contexts x 5 decorations; counters show how many documents had escaped quotes, comment markers inside strings, strings ending in a backslash, empty/adjacent comments and a final // without newline. Not a proof; decorations are only placed at token boundaries of valid documents (invalid ones: error-ness only).",
     "level_note": "Trusts encoding/json as the meaning of a JSON text, the harness serialiser (self-checked: every undecorated text must be accepted by encoding/json) and Go's runtime; depth<=5, width<=5, strings<=~1 KiB except the large part, documents<=256 KiB. Violation signatures are scoped by what the input contained (:escaped-quote, :region>64K) so that a failure on an input with neither feature has its own signature.",
     "parts": [
+        {"name": "longescapes", "pkg": "verifharness/prop/c17", "run": "^TestVerif_C17_LongEscapes$", "timeout": {"quick": 600, "thorough": 3600}},
         {"name": "documents", "pkg": "verifharness/prop/c17", "run": "^TestVerif_C17_Documents$",
          "timeout": {"quick": 600, "thorough": 3600}},
         {"name": "large", "pkg": "verifharness/prop/c17", "run": "^TestVerif_C17_Large$",
